@@ -102,7 +102,7 @@ def ev(e, env):
             return None
         return ev(e[2] if c else e[3], env)
     if k == "icmp":
-        t = _cmp(e[1], ev(e[2], env), ev(e[3], env))
+        t = _cmp(e[1], ev(e[2], env), ev(e[3], env), bool(env.get("__aligned__")))
         return None if t is None else ("c", 1 if t else 0)
     return None
 
@@ -111,7 +111,47 @@ def _is_other(x):
     return isinstance(x, tuple) and len(x) == 2 and x[0] == OTHER
 
 
-def _cmp(pred, a, b):
+_ORD = {"ult": (False, lambda x, y: x < y), "ule": (False, lambda x, y: x <= y), "ugt": (False, lambda x, y: x > y), "uge": (False, lambda x, y: x >= y),
+        "slt": (True, lambda x, y: x < y), "sle": (True, lambda x, y: x <= y), "sgt": (True, lambda x, y: x > y), "sge": (True, lambda x, y: x >= y)}
+_M64 = (1 << 64) - 1
+
+
+def _ordval(v, signed, aligned):
+    """numeric stand-in for an ordering comparison: constants are themselves; OTHER - in aligned mode the address of a node - is some value in
+    [4096, 2^47): user-space addresses of this configuration (x86-64 Linux) are positive as signed longs and above the first page.  Only
+    comparisons against constants outside that interval are decided; anything else stays unknown."""
+    if v is None:
+        return None
+    if v[0] == "c":
+        x = int(v[1]) & _M64
+        if signed and x >> 63:
+            x -= 1 << 64
+        return ("k", x)
+    if _is_other(v) and aligned:
+        return ("addr",)
+    return None
+
+
+def _cmp(pred, a, b, aligned=False):
+    if pred in _ORD and a is not None and b is not None:
+        signed, op = _ORD[pred]
+        x, y = _ordval(a, signed, aligned), _ordval(b, signed, aligned)
+        if x is None or y is None:
+            return None
+        if x[0] == "k" and y[0] == "k":
+            return op(x[1], y[1])
+        lo, hi = 4096, (1 << 47) - 1
+        if x[0] == "addr" and y[0] == "k":
+            if y[1] < lo:
+                return op(lo, y[1]) if op(lo, y[1]) == op(hi, y[1]) else None
+            if y[1] > hi:
+                return op(lo, y[1]) if op(lo, y[1]) == op(hi, y[1]) else None
+            return None
+        if x[0] == "k" and y[0] == "addr":
+            if x[1] < lo or x[1] > hi:
+                return op(x[1], lo) if op(x[1], lo) == op(x[1], hi) else None
+            return None
+        return None
     if a is None or b is None or pred not in ("eq", "ne"):
         return None
     if _is_other(a) and _is_other(b):
@@ -128,10 +168,10 @@ def _cmp(pred, a, b):
 def truth(a, env):
     """truth of an atom / i1 expression under env; None = unknown"""
     k = a[0]
-    if k in ("eq", "ne"):
-        return _cmp(k, ev(a[1], env), ev(a[2], env))
+    if k in ("eq", "ne") or k in _ORD:
+        return _cmp(k, ev(a[1], env), ev(a[2], env), bool(env.get("__aligned__")))
     if k == "icmp":
-        return _cmp(a[1], ev(a[2], env), ev(a[3], env))
+        return _cmp(a[1], ev(a[2], env), ev(a[3], env), bool(env.get("__aligned__")))
     if k == "c":
         return a[1] != 0
     v = ev(a, env)
